@@ -1,6 +1,7 @@
 from __future__ import annotations
 
 import copy
+import inspect
 import itertools
 from collections import defaultdict
 from collections.abc import Generator, Iterable
@@ -180,7 +181,17 @@ class Structured(Generic[_ItemType]):
                 return tuple(apply_func(o, context + (i,)) for i, o in enumerate(obj))
             try:
                 return func(obj, context)  # type: ignore
-            except TypeError:
+            except TypeError as e:
+                # Fall back to the single-argument form unless the error was
+                # raised inside a `func` that does take the context: that is
+                # not an invitation to run it on the same object a second time.
+                if e.__traceback__ is not None and e.__traceback__.tb_next is not None:
+                    try:
+                        inspect.signature(func).bind(obj, context)
+                    except (TypeError, ValueError):
+                        pass
+                    else:
+                        raise
                 return func(obj)  # type: ignore
 
         return (as_type or Structured)(
